@@ -61,14 +61,23 @@ func c15H264Train(r *fw.Rand, maxPackets int) [][]byte {
 				nf := r.Range(2, 5)
 				body := u[1:]
 				per := (len(body) + nf - 1) / nf
+				// RFC 6184: an FU payload MAY be empty - also the one of the start fragment
+				cuts := make([]int, nf+1)
+				for q := 0; q <= nf; q++ {
+					cuts[q] = minI(q*per, len(body))
+				}
+				cuts[nf] = len(body)
+				if r.Chance(1, 3) {
+					for q := 1; q < nf; q++ {
+						cuts[q] = r.Intn(len(body) + 1)
+					}
+					sortInts(cuts[1:nf])
+					if r.Chance(1, 2) {
+						cuts[1] = 0 // empty start fragment
+					}
+				}
 				for q := 0; q < nf; q++ {
-					lo, hi := q*per, (q+1)*per
-					if lo > len(body) {
-						lo = len(body)
-					}
-					if hi > len(body) || q == nf-1 {
-						hi = len(body)
-					}
+					lo, hi := cuts[q], cuts[q+1]
 					h := u[0] & 0x1F
 					if q == 0 {
 						h |= 0x80
